@@ -96,7 +96,11 @@ func (c *connEventHandler) doWritev(data ...[]byte) (int, error) {
 	for needSubmitIovecLen < len(data) && needSubmitIovecLen < len(c.ioves) {
 		sliceLen := len(data[needSubmitIovecLen])
 		c.ioves[needSubmitIovecLen].Len = uint64(sliceLen)
-		c.ioves[needSubmitIovecLen].Base = &data[needSubmitIovecLen][0]
+		if sliceLen > 0 {
+			c.ioves[needSubmitIovecLen].Base = &data[needSubmitIovecLen][0]
+		} else {
+			c.ioves[needSubmitIovecLen].Base = nil
+		}
 		needSubmitIovecLen++
 	}
 	writtenSliceNum := needSubmitIovecLen
@@ -119,7 +123,8 @@ func (c *connEventHandler) doWritev(data ...[]byte) (int, error) {
 		}
 
 		//ack write
-		for writtenSize := uint64(n); writtenSize > 0; {
+		// empty slices are acknowledged without any byte written
+		for writtenSize := uint64(n); needSubmitIovecLen > 0 && (writtenSize > 0 || c.ioves[writtenVec].Len == 0); {
 			if writtenSize >= c.ioves[writtenVec].Len {
 				writtenSize -= c.ioves[writtenVec].Len
 				needSubmitIovecLen--
